@@ -216,6 +216,61 @@ MOVE_HARNESSES = ['std_apply_undo_board_a', 'promo_apply_undo_board_p', 'ep_appl
 FALLBACK_PROPS = ('C03', 'C04', 'C12', 'C16')
 
 
+NATIVE_TWINS = {
+    # property -> (test file in bounded_native/, [test fn names or None for all], stated bound)
+    'C17': ('c17_registration_model', None,
+            '4000 pseudo-random sequences x 16 operations (register, unregister, toggle side, move either king) on a two-king board vs a reference multiset of (placement, side to move) and a reference stack'),
+    'C07': ('c07_search_model', None,
+            '16 positions (10 pseudo-random openings, mated, stalemated, single reply, in check, promotion next, en passant) x depths 0..3, fresh context: legal move / right error, every observable of the board unchanged, no panic'),
+    'C08': ('c08_minimax_model', None,
+            '9 positions x depths 1..3 with a fresh context and 4 games x 8 plies at depth 3 with one reused context: reported score == unpruned uncached reference minimax, returned move attains it'),
+    'C14': ('c14_c15_game_model', ['coordinate_pairs_accepted_iff_legal_played_exactly_rejected_without_effect'],
+            '5 positions x all 4096 coordinate pairs: accepted iff legal, successor board and history on acceptance, nothing changed on rejection'),
+    'C15': ('c14_c15_game_model', ['engine_move_is_a_legal_move_whenever_one_exists'],
+            '5 positions (incl. supplied ones) x 8 engine selections at depth 2: a legal move, never an error, board unchanged'),
+}
+
+
+def run_native_twin(repo, pid):
+    """BOUNDED stand-in, never counted as proved: a differential / model-based integration test against the
+    crate's PUBLIC API, run in release mode on a scratch copy of the tree under check."""
+    name, tests, bound = NATIVE_TWINS[pid]
+    tmp = tempfile.mkdtemp(prefix='vx_native_')
+    try:
+        dst = os.path.join(tmp, 'repo')
+        subprocess.run(['rsync', '-a', '--exclude', '.git', '--exclude', 'target/debug', repo + '/', dst + '/'], check=True)
+        os.makedirs(os.path.join(dst, 'tests'), exist_ok=True)
+        for f in (name + '.rs', 'common.rs'):
+            shutil.copy(os.path.join(dr.VERIF, 'bounded_native', f), os.path.join(dst, 'tests', f))
+        # `common.rs` is include!()d, not a test target of its own
+        with open(os.path.join(dst, 'Cargo.toml')) as f:
+            cargo = f.read()
+        if 'autotests' not in cargo:
+            cargo = cargo.replace('[package]', '[package]\nautotests = false', 1) + '\n[[test]]\nname = "%s"\npath = "tests/%s.rs"\n' % (name, name)
+            with open(os.path.join(dst, 'Cargo.toml'), 'w') as f:
+                f.write(cargo)
+        env = dict(os.environ, CARGO_NET_OFFLINE='true')
+        cmd = ['cargo', 'test', '--release', '--offline', '--test', name]
+        if tests:
+            cmd += ['--'] + tests
+        t0 = time.time()
+        p = subprocess.run(cmd, cwd=dst, env=env, stdout=subprocess.PIPE, stderr=subprocess.STDOUT, text=True, timeout=3000)
+        out = p.stdout
+        failed_t = re.findall(r'(?m)^test (\S+) \.\.\. FAILED', out)
+        msgs = re.findall(r"(?ms)^thread '[^']*'[^\n]*panicked at [^\n]*\n(.*?)(?:\nstack backtrace|\nnote:)", out)
+        if re.search(r'(?m)^test result: ok\.', out) and p.returncode == 0:
+            res = 'SUCCESSFUL'
+        elif failed_t:
+            res = 'FAILED'
+        else:
+            res = 'UNKNOWN'
+        return {'cmd': 'CARGO_NET_OFFLINE=true ' + ' '.join(cmd) + '   (in a scratch copy with bounded_native/%s.rs as tests/%s.rs)' % (name, name),
+                'result': res, 'failed_checks': [m.strip()[:400] for m in msgs][:6], 'failed_harnesses': failed_t, 'playback': [],
+                'wall_s': round(time.time() - t0, 1), 'tail': out[-2500:], 'bound': bound, 'engine': 'native twin (bounded test)'}
+    finally:
+        shutil.rmtree(tmp, ignore_errors=True)
+
+
 def fallback_bounded(pid):
     """Called when the deductive check is UNDECIDED (e.g. the change introduced an un-contracted helper):
     the bounded Kani twins only use the crate's PUBLIC API, so they still apply.  A counterexample is a
@@ -237,6 +292,14 @@ def fallback_bounded(pid):
             viol.append(_viol(pid, 'kani-bounded', 'position key (public API)', 'kani-assertion', ','.join(k['failed_harnesses']) or 'key',
                               k['tail'], {'has_input': bool(k.get('playback')), 'checker_cmd': k['cmd'], 'failed_checks': k['failed_checks'],
                                           'concrete_playback': k.get('playback'), 'bounded': k['bound']}))
+        return {'kani': k, 'violations': viol}
+    if pid in NATIVE_TWINS:
+        k = run_native_twin(dr.REPO, pid)
+        viol = []
+        if k['result'] == 'FAILED':
+            viol.append(_viol(pid, 'native-bounded', NATIVE_TWINS[pid][0] + ' (public API)', 'test-assertion', ','.join(k['failed_harnesses']) or 'twin',
+                              k['tail'], {'has_input': True, 'checker_cmd': k['cmd'], 'failed_checks': k['failed_checks'],
+                                          'concrete_playback': k['failed_checks'], 'bounded': k['bound']}))
         return {'kani': k, 'violations': viol}
     if pid not in FALLBACK_PROPS:
         return None
@@ -388,6 +451,10 @@ def run(pid, cfg, tier, seed):
         fb = fallback_bounded(pid)
         return {'report': {'kani_bounded_twin': fb['kani']}, 'backends': ['kani-cbmc (bounded stand-in)'], 'violations': fb['violations'],
                 'bounded': [fb['kani']['bound']]}
+    if pid in NATIVE_TWINS and tier == 'thorough':
+        fb = fallback_bounded(pid)
+        return {'report': {'native_bounded_twin': fb['kani']}, 'backends': ['native differential test (bounded stand-in)'],
+                'violations': fb['violations'], 'bounded': [fb['kani']['bound']]}
     if pid in FALLBACK_PROPS and tier == 'thorough':
         k = run_kani_moves(repo, MOVE_HARNESSES)
         viol = []
